@@ -9,11 +9,12 @@ import (
 // TModel is what the reference model remembers about one function target: what its latest
 // successful execution consumed.
 type TModel struct {
-	Ran       bool
-	Failed    bool // the latest attempt failed
-	Env       string
-	Src       string
-	SawLatest map[string]bool // per dependency: the latest successful execution of T consumed D's latest one
+	Ran        bool
+	Failed     bool // the latest attempt failed
+	Unfinished bool // a body started in a build that died before acknowledging it
+	Env        string
+	Src        string
+	SawLatest  map[string]bool // per dependency: the latest successful execution of T consumed D's latest one
 }
 
 type Model struct {
@@ -55,7 +56,7 @@ func (m Model) String() string {
 			ds = append(ds, fmt.Sprintf("%s=%v", d, s))
 		}
 		sort.Strings(ds)
-		fmt.Fprintf(&b, "%s{ran=%v failed=%v env=%q src=%q saw=%v} ", k, t.Ran, t.Failed, t.Env, t.Src, ds)
+		fmt.Fprintf(&b, "%s{ran=%v failed=%v unfinished=%v env=%q src=%q saw=%v} ", k, t.Ran, t.Failed, t.Unfinished, t.Env, t.Src, ds)
 	}
 	return b.String()
 }
@@ -68,6 +69,8 @@ func (m Model) whyStale(t string, v Vars, files map[string]string) string {
 		return "never-executed"
 	case tm.Failed:
 		return "failed-last-time"
+	case tm.Unfinished:
+		return "unfinished-execution"
 	case tm.Env != v.env(t):
 		return "environment-changed"
 	}
@@ -124,7 +127,7 @@ func (m Model) apply(ev []Event, v Vars, after map[string]string) {
 			if !evaluating[e.Label] {
 				continue
 			}
-			tm.Ran, tm.Failed = true, false
+			tm.Ran, tm.Failed, tm.Unfinished = true, false, false
 			tm.Env = v.env(e.Label)
 			tm.Src = v.srcs(e.Label, after)
 			for _, d := range v.deps(e.Label) {
